@@ -93,7 +93,9 @@ def run(fx, rep, tier):
     rep.assume("tablebases are off unless a SyzygyPath is set: code reached only with tablebases enabled is exempt")
     rep.assume("the terminal pretty-printer (SAN output, used only when stdin is a terminal) is exempt; UCI output is analysed")
     rep.assume("a hash move is played without a legality test, relying on 64-bit key equality (probabilistic; outside static reach)")
-    cone, sites = run_cone(fx, rep, "C04-CONE", [search.name], stop, 200, floors=FLOORS)
+    # the time limits of a search are set up by TimeStrategy::new (run by the go handler just before the search starts)
+    tsnew = fx.one("TimeStrategy::new")
+    cone, sites = run_cone(fx, rep, "C04-CONE", [search.name, tsnew.name], stop, 200, floors=FLOORS)
     rule_evalop(fx, rep, cone)
     pC09.rule_fallback(fx, rep) if False else rule_ret(fx, rep)
 
@@ -313,6 +315,10 @@ MUTANTS = [
      "edits": [(NG, "    ctx.max_depth_reached = ctx.max_depth_reached.max(plies);\n\n    if !is_root\n", "    ctx.max_depth_reached = ctx.max_depth_reached.max(plies) + u8::from(is_pv);\n\n    if !is_root\n")]},
     {"name": "futility margin scaled by the (unbounded) ply", "expect": "C04-EVALOP",
      "edits": [(NG, "            && eval + params::FUTILITY_PRUNE_MAX_MOVE_VALUE < alpha", "            && eval + params::FUTILITY_PRUNE_MAX_MOVE_VALUE * i16::from(plies) < alpha")]},
+    {"name": "movetime minus overhead with plain Duration subtraction (seed C04-1)", "expect": "C04-CONE",
+     "edits": [("src/engine/search/time_control.rs", "            TimeControl::ExactTime(time) => self.elapsed() > time,", "            TimeControl::ExactTime(time) => self.elapsed() > time - self.soft_stop,")]},
+    {"name": "remaining time computed with plain subtraction of the overhead", "expect": "C04-CONE",
+     "edits": [("src/engine/search/time_control.rs", "                time_remaining = time_remaining\n                    .saturating_sub(move_overhead)\n                    .max(move_overhead);", "                time_remaining = (time_remaining - move_overhead).max(move_overhead);")]},
     {"name": "benign: extra guard and local in null-move block", "benign": True,
      "edits": [(NG, "            game.make_null_move();\n", "            let reduced = depth - 1 - params::NULL_MOVE_PRUNING_DEPTH_REDUCTION;\n            let _ = reduced;\n            game.make_null_move();\n")]},
 ]
